@@ -8,7 +8,7 @@ for l in open(os.path.join(ROOT, "properties.jsonl")):
 
 # property -> (status text, technique)
 TEXT = {
- "C11": "Coq theorems (PARTIAL towards the full restore theorem): the future half (C11_future: the observational equivalence holds_C11 is preserved by every further input, no panics), Parser::dump round trip for every reachable parser state, Pen::dump round trip, Buffer::dump replay reproduces any view exactly, dump() total; the composition of the 14-step Terminal::dump script is in progress (Proofs/DumpScript.v). The restore itself is evaluated on the implementation (holds_C11 + public observables after dump/restore and continuations, classifiers for the known findings kf1/kf2/kf3)",
+ "C11": "Coq theorems: C11_restore_and_future - for every history of feeds, flushes and resizes, outside the three known-finding classes (kf1 origin mode with cursor outside the region; kf2 alternate screen with stale parked primary; kf3 sizes beyond the 16-bit parameter range), dump() fed to a fresh terminal restores an observationally equal terminal (cells, pens, wrap marks, cursor incl. wrap-pending, visibility, modes, margins, tabs, charsets, saved contexts, parser state incl. mid-sequence cuts) and the two stay equal under every further input; building blocks: Parser::dump / Pen::dump / Buffer::dump round trips, the 14-step script, bisimulation. The same statement is evaluated on the implementation (holds_C11 + public observables), dump strings are compared with the model's character by character",
  "C09": "Coq theorems: for every width/height >= 1 and every list of printable lines, text() of a fresh terminal fed the CR LF-joined text equals the lines (trailing whitespace trimmed, trailing empties aside); width independence; TextUnwrapper agreement; holds_C09 is a theorem of the model and is evaluated on the implementation",
  "C16": "Coq theorems: holds_C16 for every control function from every state satisfying the invariant (parked primary untouched while on the alternate screen, blank alternate screen in the current pen on every entry incl. mode lists, 1049 saves first, exact restore when the size is unchanged); resized excursion: C10's resize_preserves on the parked buffer",
  "C12": "Coq theorems: for EVERY scrollback limit any two chunkings of the same character stream (and per-character feed()) from any state satisfying the invariant end with equal parser and the same visible screen, cursor, modes, margins, tabs, saved contexts (C12_sessions, C12_perchar); with unlimited scrollback also the same lines() (holds_C12). Underlying: no control function reads dirty flags, trim flags or rows above the view. Known finding KF-C12-1 (lines() after per-character feed() on the alternate screen) classified separately",
